@@ -249,7 +249,7 @@ def execute(sc: Dict[str, Any], seed: int, drop_index: Optional[int], drop_recei
 
         sim.run(main())
         out["tx_count"] = sim.net.tx_count
-        out["deliveries"] = [{"t": d["t"], "host": d["host"], "fd": d["fd"], "sock": d["sock"], "data": d["data"], "tx": d["tx"]} for d in sim.net.deliveries]
+        out["deliveries"] = [{"t": d["t"], "host": d["host"], "fd": d["fd"], "sock": d["sock"], "data": d["data"], "tx": d["tx"], "src": d.get("src")} for d in sim.net.deliveries]
         out["trace_kinds"] = [classify_datagram(e) for e in sim.net.trace]
         if sc.get("keep_trace"):
             out["trace"] = list(sim.net.trace)
@@ -333,23 +333,40 @@ def judge(res: Result, sc: Dict[str, Any], out: Dict[str, Any], viol, dropped: s
         # advertised version of the service (not necessarily all from the same one)
         ok = bool(f["addrs"]) and any((f["server"] or "").lower() == s.server.lower() and f["port"] == s.port for _, s in vers) \
             and (any(f["text"] == s.text for _, s in vers) or (f["text"] == b"" and txt_may_have_expired(lk, vers))) and any(f["addrs"] <= (set(s.addrs4) | set(s.addrs6)) for _, s in vers)
-        # ... but not for long: two seconds after the announcements of the latest version (three in 450 ms, each with the
-        # cache-flush bit) every cache on the link holds it as the most recently received copy, whatever older copies are
-        # still around, and a lookup started after that must report it
-        # (judged when the latest copies are certainly still alive in that cache, or when the previous version had been
-        #  announced long enough before the update for the cache-flush bit to retire its copies: a record received less than a
-        #  second before the flush is spared by RFC 6762 10.2 and then lives for its own TTL - after an update 50 ms after
-        #  registration with a *shorter* TTL the old SRV legitimately outlives the new one)
+        # ... but not arbitrarily: of the copies of a record set (TXT, SRV) that the host has *processed*, the one received last
+        # is the one a lookup must report (F34) as long as it has not expired.  "Processed" is reconstructed from the datagrams
+        # delivered to that host, never from the library's cache: a datagram with the bytes of the one processed last on the same
+        # socket, from the same sender, less than a second earlier, is dropped by the listener's duplicate guard (C16) and
+        # counts as not received.
+        host_name = sc["hosts"][b["host"]]["name"]
         last_t, last_s = vers[-1]
-        alive = lk["start"] < last_t + 1000.0 * min(last_s.host_ttl, last_s.other_ttl) - 500.0
-        flushed = len(vers) < 2 or last_t - vers[-2][0] >= 2500.0
-        if ok and lk["start"] >= last_t + 2500.0 and (alive or flushed) and not (f["text"] == b"" and txt_may_have_expired(lk, vers)):
-            res.mon("c07.lookup_latest")
-            if (f["port"], f["text"]) != (last_s.port, last_s.text):
-                viol("c07.lookup", "lookup_superseded_data", "lookup for %s started %.1f s after the latest version was published resolved port %r / TXT %r, "
-                     "published then: port %r / TXT %r (all versions: %r); dropped=%s (%s)" % (
-                         lk["name"], (lk["start"] - last_t) / 1000.0, f["port"], f["text"], last_s.port, last_s.text, [(round(t), s.port, s.text) for t, s in vers], dropped, scope),
-                     dropped=dropped)
+        if ok:
+            for kind, got, latest in (("TXT", f["text"], last_s.text), ("SRV", f["port"], last_s.port)):
+                copies = processed_copies(out, host_name, name, kind, lk["start"])
+                if copies is None:
+                    continue                     # a goodbye was processed in between: nothing is promised about older copies
+                live = [c for c in copies if c["processed"]]
+                if not live:
+                    continue
+                L = live[-1]
+                if L["t"] + 1000.0 * L["ttl"] <= lk["start"] + 1000.0:
+                    continue                     # the copy received last has (nearly) expired: an older one may legitimately show
+                res.mon("c07.lookup_latest")
+                if got != L["value"]:
+                    viol("c07.lookup", "lookup_not_latest_received", "lookup for %s on %s started at %.0f reports %s %r, but the copy this host processed last (at %.0f, TTL %d) "
+                         "carried %r; dropped=%s (%s)" % (lk["name"], host_name, lk["start"], kind, got, L["t"], L["ttl"], L["value"], dropped, scope), dropped=dropped, rtype=kind)
+                    continue
+                # the copy received last is not the version advertised now although all three announcements of that version
+                # were delivered long ago (2.5 s): only possible when the later ones were not processed
+                if lk["start"] >= last_t + 2500.0 and got != latest and any(v_s is not last_s and (v_s.text if kind == "TXT" else v_s.port) == got for _, v_s in vers):
+                    later_dropped = [c for c in copies if c["t"] >= L["t"] and not c["processed"] and c["value"] == latest]
+                    if not any(c["t"] + 1000.0 * c["ttl"] > lk["start"] + 1000.0 for c in copies if c["value"] == latest):
+                        continue                 # every copy of the new version would have expired by now, processed or not
+                    mech = "update_repeats_suppressed_as_duplicates" if later_dropped else "other"
+                    viol("c07.lookup", "lookup_superseded_data", "lookup for %s on %s started %.1f s after the latest version was published resolved %s %r, published then: %r "
+                         "(all versions: %r); the copy processed last on that host (at %.0f) is the superseded one, %d later copies of the new version were dropped as duplicates; "
+                         "dropped=%s (%s); mechanism=%s" % (lk["name"], host_name, (lk["start"] - last_t) / 1000.0, kind, got, latest, [(round(t), s_.port, s_.text) for t, s_ in vers],
+                                                             L["t"], len(later_dropped), dropped, scope, mech), dropped=dropped, mechanism=mech)
         if not ok:
             viol("c07.lookup", "lookup_wrong_data", "lookup for %s resolved %r, advertised versions %r" % (lk["name"], {k: (sorted(v) if isinstance(v, set) else v) for k, v in f.items()},
                                                                                                           [(s.server, s.port, s.text, sorted(s.addrs4 + s.addrs6)) for _, s in vers]), dropped=dropped)
@@ -362,23 +379,11 @@ def ghost_mechanism(out: Dict[str, Any], host: str, type_: str, ghosts: List[str
     than a second before - i.e. dropped by the listener's duplicate-datagram guard (which keeps its state per socket)."""
     verdicts = []
     for g in ghosts:
-        last_on_fd: Dict[int, Tuple[bytes, float]] = {}
         first_goodbye = None
         positive_after = None
         goodbye_processed_after_positive = False
         goodbye_seen_after_positive = False
-        for d in out.get("deliveries", []):
-            if d["host"] != host:
-                continue
-            prev = last_on_fd.get(d["fd"])
-            dup = prev is not None and prev[0] == d["data"] and d["t"] - 1000.0 < prev[1]
-            m, _ = wire.try_parse(d["data"], strict=False)
-            has_qu = bool(m and any(q.cls & 0x8000 for q in m.questions))
-            if dup and not has_qu:
-                processed = False
-            else:
-                processed = True
-                last_on_fd[d["fd"]] = (d["data"], d["t"])
+        for d, m, processed in guard_walk(out, host):
             if m is None or not m.is_response:
                 continue
             for r in m.answers + m.additionals:
@@ -400,6 +405,45 @@ def ghost_mechanism(out: Dict[str, Any], host: str, type_: str, ghosts: List[str
         else:
             verdicts.append("other")
     return verdicts[0] if len(set(verdicts)) == 1 else "mixed"
+
+
+def guard_walk(out: Dict[str, Any], host: str, until: Optional[float] = None):
+    """Yield (delivery, parsed message or None, processed) for the datagrams delivered to `host`, with the listener's duplicate
+    guard as the model: per socket, a datagram with the bytes of the one processed last, from the same sender, less than a
+    second later, is dropped unless the one processed last was a query with a QU question."""
+    last_on_fd: Dict[int, Tuple[bytes, float, Any, bool]] = {}
+    for d in out.get("deliveries", []):
+        if d["host"] != host or (until is not None and d["t"] > until):
+            continue
+        m, _ = wire.try_parse(d["data"], strict=False)
+        prev = last_on_fd.get(d["fd"])
+        src = tuple(d["src"][:2]) if d.get("src") else None
+        dup = prev is not None and prev[0] == d["data"] and d["t"] - 1000.0 < prev[1] and not prev[3] and prev[2] == src
+        if not dup:
+            qu_query = bool(m is not None and not m.is_response and any(q.cls & 0x8000 for q in m.questions))
+            last_on_fd[d["fd"]] = (d["data"], d["t"], src, qu_query)
+        yield d, m, not dup
+
+
+def processed_copies(out: Dict[str, Any], host: str, name: str, kind: str, until: float) -> Optional[List[Dict[str, Any]]]:
+    """Positive-TTL copies of the TXT (value = text) or SRV (value = port) record set of `name` delivered to `host` up to `until`,
+    in delivery order, each marked processed or dropped by the duplicate guard (per socket: same bytes, same sender, less than
+    a second after the datagram processed last, unless that was a query with a QU question).  None when a goodbye for the
+    record set was processed - then older copies are gone from the cache and no order is promised."""
+    want = 16 if kind == "TXT" else 33
+    copies: List[Dict[str, Any]] = []
+    for d, m, processed in guard_walk(out, host, until):
+        if m is None or not m.is_response:
+            continue
+        for r in m.answers + m.additionals:
+            if r.type != want or r.name.text().lower() != name:
+                continue
+            if r.ttl == 0:
+                if processed:
+                    return None
+                continue
+            copies.append({"t": d["t"], "processed": processed, "ttl": r.ttl, "value": (r.rdata if kind == "TXT" else r.rdata[2])})
+    return copies
 
 
 def txt_may_have_expired(lk: Dict[str, Any], vers: List[Tuple[float, Svc]]) -> bool:
@@ -475,6 +519,9 @@ def run_shard(spec):
 
 def replay(blob):
     res = Result()
+    if "witness" in blob:
+        run_witness(res, blob["witness"])
+        return res
     rng = random.Random(blob["seed"])
     sc = gen_scenario(rng)
 
@@ -503,13 +550,37 @@ def witness_scenario() -> Dict[str, Any]:
             "dup_p": 0.0, "max_delay": 100.0, "witness_policy": {"unicast_ms": 80.0, "multicast_ms": 10.0}}
 
 
-def witnesses(spec):
-    res = Result()
-    sc = witness_scenario()
+def witness_scenario_f38() -> Dict[str, Any]:
+    """Stored witness of known finding F38 (no loss, reordering only): as in F15 the owner answers its own third probe by
+    unicast (80 ms); an update issued 50 ms after the registration completed announces the new TXT (10 ms), so the reply with
+    the OLD TXT is processed after the first announcement of the new one; announcements 2 and 3 are byte-identical to the first
+    and are dropped by the duplicate guard.  The old TXT is then the copy received last and a lookup made on that host seconds
+    later (browser started at 4 s) reports it, while a lookup on the other host reports the new one."""
+    s1 = Svc("_http._tcp.local.", "witness._http._tcp.local.", "witness-host.local.", 80, b"\x05a=old", [b"\x0a\x00\x00\x02"], [], 120, 4500)
+    s2 = Svc("_http._tcp.local.", "witness._http._tcp.local.", "witness-host.local.", 80, b"\x05a=new", [b"\x0a\x00\x00\x02"], [], 120, 4500)
+    return {"hosts": [{"name": "H0", "ip4": "10.0.0.1", "ip6": None, "layout": "single"}, {"name": "H1", "ip4": "10.0.0.2", "ip6": None, "layout": "split"}],
+            "ops": [{"t": 100.0, "op": "register", "host": 1, "svc": 0, "spec": s1}, {"t": 500.0, "op": "update", "host": 1, "svc": 0, "spec": s2},
+                    {"t": 4000.0, "op": "browse", "host": 1, "type": "_http._tcp.local.", "bid": 0},
+                    {"t": 5000.0, "op": "browse", "host": 0, "type": "_http._tcp.local.", "bid": 1}],
+            "dup_p": 0.0, "max_delay": 100.0, "witness_policy": {"unicast_ms": 80.0, "multicast_ms": 10.0}}
+
+
+WITNESSES = {"F15": (witness_scenario, 15), "F38": (witness_scenario_f38, 38)}
+
+
+def run_witness(res: Result, wid: str) -> None:
+    make, seed = WITNESSES[wid]
+    sc = make()
 
     def viol(monitor: str, kind: str, detail: str, **sig: Any) -> None:
-        res.violation(monitor, kind, detail, sig, {"witness": "F15"})
-    run = execute(sc, 15, None, None)
-    res.evaluations = 1
+        res.violation(monitor, kind, detail, sig, {"witness": wid})
+    run = execute(sc, seed, None, None)
+    res.evaluations += 1
     judge(res, sc, run, viol, "none", "-")
+
+
+def witnesses(spec):
+    res = Result()
+    for wid in sorted(WITNESSES):
+        run_witness(res, wid)
     return res
